@@ -294,7 +294,7 @@ pub fn directed(ctx: &Ctx) {
 
 pub fn run(ctx: &Ctx, evidence: Option<&PathBuf>) -> i32 {
     directed(ctx);
-    let n = ctx.size(60_000, 6_000_000);
+    let n = ctx.size3(60_000, 6_000_000, 10);
     ctx.run_cases("schedules", n, |c| {
         let big = ctx.scale == Scale::Full && c.rng.chance(1, 6);
         let sc = gen_scenario(&mut c.rng, big);
